@@ -62,6 +62,15 @@ def _mk_corpus():
     add("gen/big.h", {"big.h": gen}, "big.h", "big.h", ["-D__cplusplus"], ["pf", "ig"])
     nh, nn = rd(os.path.join(cd, "nfile.h")), rd(os.path.join(cd, "nfile.N"))
     add("corpus/nfile.N", {"nfile.h": nh, "nfile.N": nn}, "nfile.h", "nfile.N", ["-D__cplusplus"], ["ig"])
+    # scale controls: large but regular inputs, executed fault-free and with a handful of truncations only
+    def ctl(cid, name, text, args=()):
+        add(cid, {name: text.encode()}, name, name, list(args), ["pf", "pfe"])
+        ents[-1]["control"] = True
+    ctl("scale/elif-chain", "elif_chain.c", "#if 0\n" + "#elif 0\n" * 8000 + "#else\nint reached;\n#endif\n")
+    ctl("scale/macro-chain", "macro_chain.c", "#define M0 7\n" + "".join("#define M%d M%d\n" % (i, i - 1) for i in range(1, 901)) + "int x = M900;\n")
+    ctl("scale/deep-parens", "deep_parens.c", "int x = " + "(" * 20000 + "1" + ")" * 20000 + ";\n")
+    ctl("scale/deep-namespaces", "deep_ns.h", "".join("namespace n%d {\n" % i for i in range(1200)) + "int z;\n" + "}\n" * 1200, ["-D__cplusplus"])
+    ctl("scale/nested-if", "nested_if.c", "#if 1\n" * 5000 + "int deep;\n" + "#endif\n" * 5000)
     pi = os.path.join(repo, "parser-inc")
     for root, dirs, files in sorted(os.walk(pi)):
         dirs.sort()
@@ -129,8 +138,15 @@ def generate(ctx):
             for kind in KINDS:
                 yield {"c": ci, "job": job, "build": kind, "fault": None}
     only = os.environ.get("VERIF_INFAULT_ONLY_JOB")      # development aid: restrict the byte-level enumeration to one job
+    for ci, ent in enumerate(CORPUS):
+        if ent.get("control"):
+            for job in ent["jobs"]:
+                for off in sorted(set(ent["size"] * j // 9 for j in range(1, 9))):
+                    yield {"c": ci, "job": job, "build": "rel", "fault": {"kind": "T", "off": off}}
     if ctx.tier == "thorough":
         for ci, ent in enumerate(CORPUS):
+            if ent.get("control"):
+                continue
             for job in ent["jobs"]:
                 if only:
                     break
@@ -151,9 +167,11 @@ def generate(ctx):
     else:
         # seeded sample of the space the thorough tier enumerates
         budget = 30000
-        weights = [e["size"] * (4 if i in small else 1) for i, e in enumerate(CORPUS)]
+        weights = [0 if e.get("control") else e["size"] * (4 if i in small else 1) for i, e in enumerate(CORPUS)]
         total = sum(weights)
         for ci, ent in enumerate(CORPUS):
+            if ent.get("control"):
+                continue
             n = max(4, budget * weights[ci] // total)
             for job in ent["jobs"]:
                 for f in _faults_B(ent):
